@@ -5,6 +5,7 @@ import (
 	"go/ast"
 	"go/token"
 	"go/types"
+	"regexp"
 	"sort"
 	"strings"
 
@@ -100,7 +101,7 @@ var opaqueFormulaSpecs = []formulaSpec{
 	{"trend.Wma", nil, []string{`op("closure:trend.(*Wma).Compute#1", values)`}, "weighted moving average"},
 	{"volatility.MovingStd", nil, []string{`op("stage:volatility.(*MovingStd).Compute/go#1", c)`}, "standard deviation of the last period values"},
 	{"volatility.SuperTrend", nil, []string{`op("closure:volatility.(*SuperTrend).Compute#1", (highs + lows)/2, Multiplier*Atr(highs, lows, closings), closings)`}, "bands = (H+L)/2 +/- multiplier*ATR, trend selection on closings"},
-	{"volatility.Po", [][2]string{{"X", `op("stage:helper.Count/helper.Count#1", closings)`}, {"PL", `op("ind:trend.MovingMin@min#0", highs + mls(X, highs)[0])`}, {"PH", `op("ind:trend.MovingMax@max#0", lows + mls(X, lows)[0])`}},
+	{"volatility.Po", [][2]string{{"X", `op("stage:helper.Count/helper.Count#1", closings)`}, {"PL", `obj_min(highs + mls(X, highs)[0])`}, {"PH", `obj_max(lows + mls(X, lows)[0])`}},
 		[]string{"100 * (closings - PL) / (PH - PL)"}, "PO = 100*(Closing - PL)/(PH - PL)"},
 	{"volume.Nvi", nil, []string{`op("closure:volume.(*Nvi).Compute#1", (closings - prev(closings)) / prev(closings), volumes - prev(volumes))`}, "NVI recurrence over the closing ratio and the volume change"},
 	{"volume.Obv", nil, []string{`op("closure:volume.(*Obv).Compute#1", closings, volumes)`}, "OBV recurrence over closings and volumes"},
@@ -184,10 +185,11 @@ func (c *Ctx) checkFormulas() {
 				Message: fmt.Sprintf("%s has %d outputs, its documented formula has %d", tn, len(outs), len(sp.Outs))})
 			continue
 		}
-		env := &specEnv{r: r, params: map[string]bool{}}
+		var streams []string
 		for _, ps := range r.ParamStreams {
-			env.params[ps.Param] = true
+			streams = append(streams, ps.Param)
 		}
+		env := &specEnv{r: r, params: specParams(fi, streams)}
 		tm := shape.NewTerms(c.P, r)
 		for i, o := range outs {
 			site := fmt.Sprintf("%s/out%d", r.RootName, i)
@@ -199,7 +201,7 @@ func (c *Ctx) checkFormulas() {
 				continue
 			}
 			got := tm.Of(o)
-			ok := sym.Equal(got, want)
+			ok := sym.Equal(got, want) || sym.Equal(anonymise(got), anonymise(want))
 			run.Oblige(ok)
 			run.Sample(map[string]string{"obligation": "value(" + site + ") = " + sp.Doc, "verdict": fmt.Sprint(ok)})
 			if !ok {
@@ -826,8 +828,25 @@ func (c *Ctx) checkStepSpecs(specs []stepSpec) {
 			if msg := c.compareStep(m, sp, mp, specUpd, specOut); msg == "" {
 				matched = true
 				break
-			} else {
+			} else if lastMsg == "" {
 				lastMsg = msg
+			}
+		}
+		if !matched && len(sp.Bool) > 0 {
+			// a truth value may be kept with the opposite sense (`started` for `!first`): try the
+			// closure with each remembered truth value negated
+			for _, mp := range cands {
+				for cn, sn := range mp {
+					if !sp.Bool[sn] {
+						continue
+					}
+					if msg := c.compareStep(flipState(m, cn), sp, mp, specUpd, specOut); msg == "" {
+						matched = true
+					}
+				}
+				if matched {
+					break
+				}
 			}
 		}
 		run.Oblige(matched)
@@ -1471,4 +1490,110 @@ func (c *Ctx) windowExtremes() {
 			c.violate("formula/window", site, short(msg, 120), lit.Pos(), "the sliding-window "+strings.TrimPrefix(w.ret, "Bst.")+" is not maintained as documented: the closure "+msg)
 		}
 	}
+}
+
+// flipState returns the machine with the remembered truth value v replaced by its negation
+// everywhere (reads become !v, updates are negated): the same step with the opposite convention.
+func flipState(m *dtab.Machine, v string) *dtab.Machine {
+	neg := func(e sym.Expr) sym.Expr {
+		switch x := e.(type) {
+		case sym.Var:
+			switch x.Name {
+			case "#true":
+				return sym.V("#false")
+			case "#false":
+				return sym.V("#true")
+			}
+		case sym.Logic:
+			if x.Op == "!" && len(x.Args) == 1 {
+				return x.Args[0]
+			}
+		}
+		return sym.Logic{Op: "!", Args: []sym.Expr{e}}
+	}
+	sub := map[string]sym.Expr{v: sym.Logic{Op: "!", Args: []sym.Expr{sym.V(v)}}}
+	out := &dtab.Machine{Params: m.Params, State: m.State, Reads: m.Reads, ReadExprs: m.ReadExprs, Unsupported: m.Unsupported, Pos: m.Pos}
+	for _, p := range m.Paths {
+		np := &dtab.Path{Updates: map[string]sym.Expr{}, Effects: p.Effects, Exit: p.Exit}
+		for _, c := range p.Conds {
+			np.Conds = append(np.Conds, simplifyNot(sym.Subst(c, sub)))
+		}
+		for k, u := range p.Updates {
+			nu := sym.Subst(u, sub)
+			if k == v {
+				nu = neg(nu)
+			}
+			np.Updates[k] = simplifyNot(nu)
+		}
+		for _, r := range p.Ret {
+			np.Ret = append(np.Ret, sym.Subst(r, sub))
+		}
+		for _, sd := range p.Sends {
+			np.Sends = append(np.Sends, sym.Subst(sd, sub))
+		}
+		out.Paths = append(out.Paths, np)
+	}
+	return out
+}
+
+// simplifyNot removes double negations.
+func simplifyNot(e sym.Expr) sym.Expr {
+	switch x := e.(type) {
+	case sym.Logic:
+		as := make([]sym.Expr, len(x.Args))
+		for i, a := range x.Args {
+			as[i] = simplifyNot(a)
+		}
+		if x.Op == "!" && len(as) == 1 {
+			if in, ok := as[0].(sym.Logic); ok && in.Op == "!" && len(in.Args) == 1 {
+				return in.Args[0]
+			}
+		}
+		return sym.Logic{Op: x.Op, Args: as}
+	}
+	return e
+}
+
+var opaqueCallAny = regexp.MustCompile(`cfg:[A-Za-z_][A-Za-z0-9_]*\(\)#`)
+var opaqueCallResult = regexp.MustCompile(`^cfg:[A-Za-z_][A-Za-z0-9_]*\(\)#`)
+
+// anonymise forgets the names of hand-written stages, stateful closures and unexported helper
+// calls (they are named after the function that happens to hold them): what a named operator
+// does is decided by its own rule, here only what it is applied to.
+func anonymise(e sym.Expr) sym.Expr {
+	switch x := e.(type) {
+	case sym.Var:
+		if loc := opaqueCallResult.FindStringIndex(x.Name); loc != nil {
+			return sym.V("cfg:call()#" + x.Name[loc[1]:])
+		}
+		return x
+	case sym.Neg:
+		return sym.Neg{X: anonymise(x.X)}
+	case sym.Bin:
+		return sym.Bin{Op: x.Op, L: anonymise(x.L), R: anonymise(x.R)}
+	case sym.Cmp:
+		return sym.Cmp{Op: x.Op, L: anonymise(x.L), R: anonymise(x.R)}
+	case sym.Logic:
+		as := make([]sym.Expr, len(x.Args))
+		for i, a := range x.Args {
+			as[i] = anonymise(a)
+		}
+		return sym.Logic{Op: x.Op, Args: as}
+	case sym.Ite:
+		return sym.Ite{Cond: anonymise(x.Cond), A: anonymise(x.A), B: anonymise(x.B)}
+	case sym.Call:
+		as := make([]sym.Expr, len(x.Args))
+		for i, a := range x.Args {
+			as[i] = anonymise(a)
+		}
+		fn := opaqueCallAny.ReplaceAllString(x.Fn, "cfg:call()#")
+		switch {
+		case strings.HasPrefix(fn, "stage:"):
+			fn = "stage:_"
+		case strings.HasPrefix(fn, "closure:") && !strings.HasPrefix(fn, "closure:helper."):
+			fn = "closure:_"
+		}
+		return sym.Call{Fn: fn, Args: as}
+	}
+	return e
 }
